@@ -69,8 +69,7 @@ def verify_unit_worker(qualname: str) -> dict:
             dropped=sorted(r.dropped),
             gen_s=round(r.gen_s, 3),
         )
-        # canary: False must not be provable from the entry assumptions (context consistency)
-        for ob in r.obligations:
+        def do_ob(ob):
             v = discharge(ob, r.axioms, second_opinion=False)
             rec = {
                 "id": ob.id,
@@ -126,7 +125,11 @@ def verify_unit_worker(qualname: str) -> dict:
                                 rp = rp2
                                 break
                 rec["replay"] = rp
-            out["obligations"].append(rec)
+            return rec
+
+        inner_jobs = int(os.environ.get("PYVC_INNER_JOBS", "6")) if len(r.obligations) > 40 else 1
+        out["obligations"] = fork_map(do_ob, r.obligations, inner_jobs)
+        out["inner_jobs"] = inner_jobs
         # vacuity guard: the assumptions of the last obligation on every path must be satisfiable
         # (`unknown` is accepted: with quantified axioms z3 rarely answers sat)
         last = {}
@@ -135,16 +138,18 @@ def verify_unit_worker(qualname: str) -> dict:
             last[ob.path] = ob
             if rec_["status"] != "discharged":
                 bad_paths.add(ob.path)  # a goal that failed was assumed afterwards: the rest of that path is vacuous by construction
-        vac = []
-        for path, ob in last.items():
-            if path in bad_paths:
-                continue
+
+        def do_vac(item):
+            path, ob = item
             s = z3.Solver()
             s.set("timeout", 1500)
             s.add(*r.axioms)
             s.add(*ob.assumptions)
-            if s.check() == z3.unsat:
-                vac.append(path or "entry")
+            return s.check() == z3.unsat
+
+        todo = [(path, ob) for path, ob in last.items() if path not in bad_paths]
+        flags = fork_map(do_vac, todo, inner_jobs)
+        vac = [(path or "entry") for (path, _ob), f in zip(todo, flags) if f]
         out["vacuous_paths"] = vac
         out["paths_checked"] = len(last)
     except _UnitTimeout:
@@ -155,6 +160,62 @@ def verify_unit_worker(qualname: str) -> dict:
         signal.alarm(0)
     out["wall_s"] = round(time.time() - t0, 3)
     return out
+
+
+def fork_map(fn, items, jobs):
+    """[fn(x) for x in items], computed by `jobs` forked children (the z3 terms of a unit cannot be pickled, so the
+    children inherit them by fork and send back plain records)."""
+    items = list(items)
+    if jobs <= 1 or len(items) < 2:
+        return [fn(x) for x in items]
+    import pickle
+
+    kids = []
+    try:
+        for k in range(jobs):
+            rfd, wfd = os.pipe()
+            pid = os.fork()
+            if pid == 0:
+                code = 0
+                try:
+                    os.close(rfd)
+                    import signal as _sig
+
+                    _sig.alarm(0)
+                    res = []
+                    for i in range(k, len(items), jobs):
+                        try:
+                            res.append((i, True, fn(items[i])))
+                        except BaseException:  # noqa
+                            res.append((i, False, traceback.format_exc()[-1500:]))
+                    with os.fdopen(wfd, "wb") as f:
+                        pickle.dump(res, f)
+                except BaseException:  # noqa
+                    code = 1
+                finally:
+                    os._exit(code)
+            os.close(wfd)
+            kids.append((pid, rfd))
+        results = {}
+        for pid, rfd in kids:
+            with os.fdopen(rfd, "rb") as f:
+                data = f.read()
+            os.waitpid(pid, 0)
+            for i, ok, val in pickle.loads(data) if data else []:
+                if not ok:
+                    raise RuntimeError("obligation worker failed:\n" + val)
+                results[i] = val
+        kids = []
+        if len(results) != len(items):
+            raise RuntimeError("obligation worker died")
+        return [results[i] for i in range(len(items))]
+    finally:
+        for pid, _ in kids:
+            try:
+                os.kill(pid, 9)
+                os.waitpid(pid, 0)
+            except Exception:
+                pass
 
 
 def _unit_proc(qualname, conn):
